@@ -121,11 +121,18 @@ class C15Executor(Executor):
         return super().note_store(st, ref, node)
 
     def call_method(self, st, obj, name, args, kwargs, node):
+        if isinstance(obj, VExt) and obj.sort == "C15Shared":
+            if name in O.DEF_MUTATORS:
+                self.shared_mutated(st, node, f".{name}() on a module-level object")
+            return [(st, VUnk(f"shared.{name}()"))]
         if isinstance(obj, VRef) and obj.ref in self.published(st) and name in O.DEF_MUTATORS:
             st.ghost["published_mutated"] = tuple(st.ghost.get("published_mutated", ())) + (self.loc(node),)
         return super().call_method(st, obj, name, args, kwargs, node)
 
     def store_index(self, st, base, idx, v, node):
+        if isinstance(base, VExt) and base.sort == "C15Shared":
+            self.shared_mutated(st, node, "store into a module-level object")
+            return [st]
         if isinstance(base, VExt) and base.sort == "C15Cache":
             if isinstance(v, VRef):
                 self.publish(st, v.ref)
@@ -133,7 +140,31 @@ class C15Executor(Executor):
             return [st]
         return super().store_index(st, base, idx, v, node)
 
+    # ---- round 7: other module-level mutable containers of the module are SHARED objects (sort "C15Shared"): every store into one /
+    # mutator call on one is recorded like a mutation of a published object; handing one out is not "a fresh object"
+    def shared_mutated(self, st, node, what="module-level object"):
+        st.ghost["published_mutated"] = tuple(st.ghost.get("published_mutated", ())) + (f"{self.loc(node)} ({what})",)
+
+    def get_attr(self, st, base, attr, node):
+        if isinstance(base, VExt) and base.sort == "C15Shared":
+            return [(st, VFunc("bound", base, attr))]
+        return super().get_attr(st, base, attr, node)
+
+    def get_index(self, st, base, idx, node):
+        if isinstance(base, VExt) and base.sort == "C15Shared":
+            return [(st, VUnk("shared_item"))]
+        if isinstance(base, VTuple) and len(base.items) == 256 and isinstance(idx, VInt) and idx.const() is None and getattr(idx, "is_bv", False) \
+                and idx.t.size() == 8 and _byte_table(base):
+            # read of a constant 256-entry byte table at a symbolic byte: SOME byte (over-approximation; the frame / freshness
+            # obligations of this pack do not depend on table contents, and the 256-way If chains cost seconds per call)
+            return [(st, VInt(z3.BitVec(fresh_name("tbl"), 8)))]
+        return super().get_index(st, base, idx, node)
+
     def b_len(self, st, args, kwargs, node):
+        if args and isinstance(args[0], VExt) and args[0].sort == "C15Shared":
+            n = z3.Int(fresh_name("shared_len"))
+            st.assume(n >= 0)
+            return [(st, VInt(n))]
         if args and isinstance(args[0], VExt) and args[0].sort == "C15Cache":
             n = z3.Int(fresh_name("cache_len"))
             st.assume(n >= 0)
@@ -151,6 +182,22 @@ class C15Executor(Executor):
             self.raise_in(bad, VExc(t, {"site": "thrown into generator at yield"}))
             out.append((s, v))
         return out
+
+
+_BYTE_TABLES = {}
+
+
+def _byte_table(v):
+    k = id(v)
+    if k not in _BYTE_TABLES:
+        ok = True
+        for x in v.items:
+            c = x.const() if isinstance(x, VInt) else None
+            if c is None or not (0 <= c <= 255):
+                ok = False
+                break
+        _BYTE_TABLES[k] = (v, ok)       # keeps `v` alive: ids are not recycled
+    return _BYTE_TABLES[k][1]
 
 
 EXECUTOR = C15Executor
@@ -289,7 +336,14 @@ def cache_contracts(reg):
         return [(st, ex.new_list(st, [VUnk(f"rk[{i}]") for i in range(2)]))]       # a fresh list of round keys
 
     reg.ext_models["C15.expand_key"] = m_expand
-    reg.module_consts[(AESF, roles.get("key-expansion") or "_expand_key")] = VFunc("ext", "C15.expand_key")
+    expn = roles.get("key-expansion") or "_expand_key"
+    exp_c = expansion_contract(reg, acc[0], expn)
+    if exp_c is not None:
+        # round 7: the expansion is VERIFIED on its real body (below); the accessor's call site applies that contract, whose
+        # call-site view (result_maker: a list allocated by the call; ValueError) is exactly the former assumed model `m_expand`
+        out.append(exp_c)
+    else:
+        reg.module_consts[(AESF, expn)] = VFunc("ext", "C15.expand_key")
 
     def stored_under_looked_up_key(c):
         stores = c.st.ghost.get("cache_stores", ())
@@ -313,6 +367,113 @@ def cache_contracts(reg):
         note="cache object abstract; _expand_key assumed to return a fresh list or raise ValueError (its contract is C20's)",
     ))
     return out
+
+
+_MUTABLE_CTORS = {"list", "dict", "set", "bytearray", "OrderedDict", "defaultdict", "deque", "Counter", "array"}
+
+
+def shared_containers(rel, repo=None, skip=()):
+    """Module-level names bound to a mutable container that is not a literal table of constants (empty / non-constant display,
+    comprehension, constructor call, `[x] * n`): scratch buffers, registries, caches."""
+    out = []
+    try:
+        m = loader.module(rel, repo)
+        for name, v in m.assigns.items():
+            if name in skip:
+                continue
+            if isinstance(v, ast.BinOp) and isinstance(v.op, ast.Mult):
+                v = v.left if isinstance(v.left, (ast.List, ast.Call)) else v.right
+            if isinstance(v, (ast.List, ast.Set)) and v.elts and all(isinstance(e, ast.Constant) for e in v.elts):
+                continue        # a literal table of constants: read as its content (engine: immutable); a writer is H5's / H10's finding
+            if isinstance(v, (ast.List, ast.ListComp, ast.Dict, ast.DictComp, ast.Set, ast.SetComp)):
+                out.append(name)
+            elif isinstance(v, ast.Call):
+                d = dotted(v.func) or ""
+                if d.split(".")[-1] in _MUTABLE_CTORS:
+                    out.append(name)
+    except Exception:  # noqa
+        return []
+    return out
+
+
+def expansion_contract(reg, rel, name):
+    """Round 7.  The key expansion behind the round-key cache under a contract VERIFIED on its real body -- it was the assumed
+    half of the accessor's contract ("returns a fresh list or raises ValueError").  What isolation needs from it:
+      * the result is a list ALLOCATED BY THIS CALL whose elements are immutable byte strings: nothing another call, the cache or
+        another thread holds can alias it (so publishing it in the cache publishes nothing else);
+      * no object that existed before the call (module-level tables / buffers, anything the cache holds) is written;
+      * the only exception is the ValueError of the key-length check, raised exactly for lengths other than 16 / 24 / 32.
+    Scope: symbolic key BYTES of length 16, 24, 32 (all lengths with a normal return; loops run to their real, length-determined
+    bounds) and a key of any other symbolic length.  256-entry constant byte tables are read as "some byte"."""
+    try:
+        fn = loader.module(rel).functions.get(name)
+        if fn is None:
+            return None
+        ps = [a.arg for a in (fn.args.posonlyargs + fn.args.args)]
+        if len(ps) != 1 or fn.args.vararg or fn.args.kwarg or fn.args.kwonlyargs:
+            return None
+        cache_name = discover().get("round-key-cache") or "_ROUND_KEY_CACHE"
+        for nm in shared_containers(rel, skip=(cache_name,)):
+            reg.module_consts.setdefault((rel, nm), VExt("C15Shared"))
+    except Exception:  # noqa
+        return None
+    from pyvc.values import VBytes, VSeq
+    from pyvc.verify import p_bytes
+    key = ps[0]
+    LENS = (16, 24, 32)
+    other_len = z3.Int("C15_other_key_len")
+
+    def mk(ex, st, nm):
+        alts = [(None, p_bytes(n).make(ex, st, nm)[0][1]) for n in LENS]
+        alts.append((z3.And(other_len >= 0, *[other_len != n for n in LENS]),
+                     VSeq(other_len, lambda i: VInt(z3.BitVec(fresh_name("kb"), 8)), "int")))
+        return alts
+
+    def body(c):
+        return not c.at_call_site and c.ex.contract is me
+
+    def fresh_result(c):
+        if not body(c):
+            return z3.BoolVal(True)
+        r = c.result
+        if not isinstance(r, VRef):
+            c.note = f"returns {r!r}: not an object allocated by this call"
+            return z3.BoolVal(False)
+        o = c.st.obj(r.ref)
+        if r.ref in c.entry.heap or not o.fresh or r.ref in c.ex.published(c.st):
+            c.note = "the returned list existed before the call / is held by the cache"
+            return z3.BoolVal(False)
+        if o.kind != "list" or o.data is None or not all(isinstance(x, (VBytes, VStr, VInt, VBool)) for x in o.data):
+            c.note = f"returned {o.kind} with elements that are not known to be immutable values"
+            return z3.BoolVal(False)
+        c.note = f"list of {len(o.data)} byte strings allocated by the call"
+        return z3.BoolVal(True)
+
+    def nothing_older_written(c):
+        if not body(c):
+            return z3.BoolVal(True)
+        m = tuple(c.st.ghost.get("published_mutated", ())) + tuple(l for (_r, l) in c.st.ghost.get("nonfresh_stores", ()))
+        if m:
+            c.note = "writes to an object that existed before the call at " + ", ".join(m)
+        return z3.BoolVal(not m)
+
+    def bad_length(c):
+        if not body(c):
+            return z3.BoolVal(True)
+        k = c.args[key]
+        ok = isinstance(k, VSeq)         # the three alternatives of concrete, valid length must not raise at all
+        return z3.And(z3.BoolVal(ok), nothing_older_written(c))
+
+    me = FnContract(
+        target=f"{rel}::{name}", params=[(key, Maker(mk, desc="bytes of length 16 | 24 | 32 | any other length"))],
+        ensures=[("result-is-a-list-allocated-by-this-call", fresh_result),
+                 ("no-object-older-than-the-call-is-written", nothing_older_written)],
+        raises=[Raises("ValueError", when=bad_length, label="exactly the key-length check; nothing written before")],
+        result_maker=lambda ex, st, ctx: ex.new_list(st, [VUnk(f"rk[{i}]") for i in range(2)]),
+        note="verified on the real body (round 7); call-site view = a list allocated by the call or ValueError (the former assumed model)",
+    )
+    ROLE_OF[me.target] = "<key-expansion>"
+    return me
 
 
 # ---------------------------------------------------------------- dataflow --
